@@ -276,6 +276,13 @@ func updateMpp(ctx *invoiceUpdateCtx, inv *Invoice) (*InvoiceUpdateDesc,
 
 	htlcSet := inv.HTLCSet(setID, HtlcStateAccepted)
 
+	// An AMP set id is used for a single payment. Once the set has been
+	// settled, its settled htlcs are loaded with the invoice and no further
+	// htlc can join the set: fail the htlc instead of recording it.
+	if setID != nil && len(inv.HTLCSet(setID, HtlcStateSettled)) != 0 {
+		return nil, ctx.failRes(ResultInvoiceAlreadySettled), nil
+	}
+
 	// Check whether total amt matches other HTLCs in the set.
 	var newSetTotal lnwire.MilliSatoshi
 	for _, htlc := range htlcSet {
